@@ -59,18 +59,20 @@ def check(chk, fx):
 def lexarm(chk, fx):
     chk.rule("LEXARM", "generated / custom lexer arms of get_current_term", 3)
     gen, cus = None, None
-    for f in fx.need(P + "get_current_term"):
-        calls = [n for n in walk(f.body) if A.is_call(n) and n["callee"]["n"] in ("dfa_match", "match")]
+    for f0 in fx.need(P + "get_current_term"):
+        calls = [(h, n) for h in A.with_helpers(f0) for n in walk(h.body)
+                 if A.is_call(n) and n["callee"]["n"] in ("dfa_match", "match")]
         if len(calls) != 1:
             chk.incomplete("get_current_term: expected exactly one lexer call per instantiation, found %d" % len(calls))
-        if calls[0]["callee"]["n"] == "dfa_match" and gen is None:
-            gen = (f, calls[0])
-        if calls[0]["callee"]["n"] == "match" and cus is None:
-            cus = (f, calls[0])
+        f, call = calls[0]
+        if call["callee"]["n"] == "dfa_match" and gen is None:
+            gen = (f, call, f0)
+        if call["callee"]["n"] == "match" and cus is None:
+            cus = (f, call, f0)
     if gen is None or cus is None:
         chk.incomplete("both a generated-lexer and a custom-lexer instantiation of get_current_term are needed")
-    fg, cg = gen
-    fc, cc = cus
+    fg, cg, fg0 = gen
+    fc, cc, fc0 = cus
     ag = [Canon(fg).c(a) for a in A.call_args(cg)]
     ac = [Canon(fc).c(a) for a in A.call_args(cc)]
     want = ["$0.current_sp", "$0.current_it", "$0.buffer_end", "$0.error_stream"]
@@ -83,9 +85,9 @@ def lexarm(chk, fx):
         chk.violation("LEXARM", A.site(fc, cc), "LEXARM:arguments",
                       "the two lexer arms are called with different arguments: generated %s, custom %s" % (ag, ac))
     # both are the two arms of one `if constexpr (generate_lexer)` in the pattern
-    pats = fx.fns(P + "get_current_term", patterns=True, insts=False)
+    pats = fx.fns(fg.o["q"], patterns=True, insts=False)
     if not pats:
-        chk.incomplete("pattern of get_current_term not found")
+        chk.incomplete("pattern of %s not found" % fg.o["n"])
     ifs = [n for n in walk(pats[0].body) if n.get("k") == "IfStmt" and n.get("constexpr")]
     good = False
     for n in ifs:
@@ -98,8 +100,8 @@ def lexarm(chk, fx):
     else:
         chk.violation("LEXARM", A.site(pats[0]), "LEXARM:structure", "the two lexers are not selected by a single if constexpr around the call")
     # identical abstract behaviour
-    sg = drv.gct_summary(fx, fg)
-    sc = drv.gct_summary(fx, fc)
+    sg = drv.gct_summary(fx, fg0)
+    sc = drv.gct_summary(fx, fc0)
     if sg == sc:
         chk.ok("LEXARM", A.site(fc), "the abstract behaviour of get_current_term is identical with a generated and with a "
                                      "custom lexer (%d abstract cases)" % len(sg))
